@@ -21,3 +21,8 @@ add('C18', 'ENUM', 'exploration',
     'Every name of a bounded grammar (prefixes x version shapes x labels incl. nested robot names) is classified by the real branch_factory and predicates and compared, attribute by attribute, with a split-based reference parser; every derived w/, q/, q/w/ name is built by the real constructors and parsed back.',
     'ASCII names without newline; FakeRepo stands for git (no command is needed to classify a name).',
     'exhaustive input enumeration vs reference parser + round trip', 'DESIGN.md section 5 C18')
+
+add('C07', 'ENUM', 'exploration',
+    'handle_comments (privilege computation + both comment syntaxes + option/command phases) is run on every comment list of length <= 3 from a grammar of author classes x addressee forms x keyword lists x separators and compared with an oracle that works on the generator tuple; the no-escalation clause is asserted separately on every case.',
+    'reset/force_reset handlers replaced by recorders; templates stubbed; outcomes the statement leaves open (tight separators, commands after unusual punctuation) are counted in the evidence, not judged.',
+    'exhaustive input enumeration vs reference oracle', 'DESIGN.md section 5 C07')
